@@ -1,6 +1,6 @@
 """Per-check metadata from which bin/mkmanifest writes MANIFEST.json."""
 
-HOOK_COMMITS = ["3c48510", "e2e1b97", "035de92", "8d2dfbb", "87c61cc", "5f32c19", "20f82c0"]
+HOOK_COMMITS = ["3c48510", "e2e1b97", "035de92", "8d2dfbb", "87c61cc", "5f32c19", "20f82c0", "cad1219"]
 FIX_COMMITS = ["4036763", "5f5d3b9", "e0b60a8", "6cf1e6b", "6eae605", "8378524", "a71bd21", "3012537", "59d973f", "aa35bd8", "58124f2", "9fc07cf", "5316fe1", "f24111c", "ed45003"]
 
 NOTES = ("One engine: TLA+ specifications under spec/, TLC for the design, Go harness (harness/) for conformance. "
@@ -77,13 +77,16 @@ CHECKS = {
     },
     "C07": {
         "level": "model_checking",
-        "technique": "TLA+ Locking spec model-checked (intended, deviations, and the class table observed on the real server); concurrent executions recorded in lock order through hooks and validated against the sequential Keyspace spec run by TLC (code->model)",
+        "technique": "TLA+ Locking spec model-checked (intended, deviations, and the class table observed on the real server); concurrent executions recorded in lock order through hooks and validated against the sequential Keyspace spec run by TLC (code->model); every command of the repository's own suite recorded at its linearization point and judged by TLC (SysTrace)",
         "text": "TLC checks NoConflict / MutatorsHoldW / ReadersHoldLock for all interleavings of 3 clients with the intended class table, shows that the "
                 "historical deviations break them, and re-checks with the table observed in the runs. Concurrent clients (2-8, plain and multi-object "
                 "commands, JSON documents, EVAL/EVALRO/EVALNA scripts) run TLC-generated programs on both lock implementations; hooks stamp each "
                 "command and script call with its position in the order the server lock was held and the lock mode; TLC runs the Keyspace model "
                 "along that order (KeyspaceOrder) and every reply, the final dataset, the lock mode of every changing step, the log (= logged "
-                "commands in lock order), real-time precedence and script windows are compared.",
+                "commands in lock order), real-time precedence and script windows are compared. System trace: the repository's own "
+                "integration suite runs with the hooks on; each of its ~77 000 commands (62 command names) is judged by TLC at its "
+                "linearization point (SysTrace: WriteClassHoldsW, MutatorsHoldW, LogOnlyUnderW, ChangedIsLogged) and the class table it "
+                "exhibits is re-checked in Locking for all interleavings.",
         "note": "Schedules on the real code are what the OS scheduler produces; design-level interleavings are exhaustive. Live fences / background expiry are covered at design level and by C05/C14.",
     },
     "C12": {
